@@ -587,6 +587,9 @@ func (env *SpecEnv) call(e *SExpr) Val {
 		need(2)
 		v := env.eval(args[0])
 		t := env.resolveType(args[1].String())
+		if _, isStruct := t.Underlying().(*types.Struct); isStruct {
+			t = types.NewPointer(t) // typeis(x, Record): x holds a *Record (as for ifaceval)
+		}
 		return scalar(Eq(v.F[0].S, IntLit(int64(env.eng.typeID(t)))), bt)
 	case "ifaceval":
 		need(2)
